@@ -165,15 +165,17 @@ func firstLines(s string, n int) string {
 	return strings.Join(l, "\n")
 }
 
-var frameRe = regexp.MustCompile(`^(istio\.io/istio/[^\s(]+)`)
-
 // TopIstioFrame finds the innermost istio.io/istio function in a stack text.
 func TopIstioFrame(st string) string {
 	for _, l := range strings.Split(st, "\n") {
 		l = strings.TrimSpace(l)
-		if m := frameRe.FindStringSubmatch(l); m != nil {
-			f := m[1]
-			if i := strings.Index(f, "("); i > 0 {
+		if strings.HasPrefix(l, "istio.io/istio/") {
+			// "pkg.(*T).method(0xc000..., ...)": cut the argument list, keep the receiver
+			f := l
+			if i := strings.LastIndex(f, "("); i > 0 {
+				f = f[:i]
+			}
+			if i := strings.IndexAny(f, " \t"); i > 0 {
 				f = f[:i]
 			}
 			return f
@@ -540,10 +542,10 @@ func runParent(p *Prop, tier string, seed int64) int {
 	printedV := map[string]int{}
 	nViol := 0
 	for i, v := range viols {
-		if what, ok := kf[v.Key]; ok {
+		if what, ok := matchKnown(kf, v.Key); ok {
 			if !printedKF[v.Key] {
 				printedKF[v.Key] = true
-				fmt.Printf("KNOWN-FINDING: property=%s key=%s %s\n", p.ID, v.Key, what)
+				fmt.Printf("KNOWN-FINDING: property=%s key=%s %s\n", p.ID, v.Key, oneLine(what, 300))
 			}
 			merged.Counters["known_finding_witnesses"]++
 			continue
@@ -862,6 +864,20 @@ func classifyRace(blk string, anchors []string) raceReport {
 // known findings: /verif/known-findings.txt, read-only at run time.
 //   finding: property=C17 key=<key> <what fails>
 //   fixed: property=C04 <commit> <what failed>       (suppresses nothing)
+
+// matchKnown looks a violation key up: exact match, or a listed key ending in '*' that is a
+// prefix of it (a trigger-delimited family, e.g. "idempotency:user-override-of-injected-container:*").
+func matchKnown(kf map[string]string, key string) (string, bool) {
+	if w, ok := kf[key]; ok {
+		return w, true
+	}
+	for k, w := range kf {
+		if strings.HasSuffix(k, "*") && strings.HasPrefix(key, strings.TrimSuffix(k, "*")) {
+			return w, true
+		}
+	}
+	return "", false
+}
 
 func loadKnownFindings(prop string) map[string]string {
 	out := map[string]string{}
